@@ -202,6 +202,10 @@ def enumerate_cases(tier: str):
             for node in (0, 1, 2, 3, 5, 10, 11, 12, 21, 55, 110, 125, 201, 250, 255):
                 for rest in ("255;3;0;9;hello", "1;1;1;47;1;2;3", "255;0;0;17;2.0"):
                     yield {"version": version, "line": f"{node};{rest}\n", "mqtt": True, "mqtt_prefix": prefix}
+    # two malformed header fields at once: template-looking text in one, an out-of-domain value in another (every ordered pair of positions)
+    for version in VERSIONS if tier == "thorough" else ("1.4", "2.0", "2.2"):
+        for line in gen.template_pair_lines():
+            yield {"version": version, "line": line}
     versions = VERSIONS if tier == "thorough" else ("1.4", "2.2")
     reps = (NODE_REPS, CHILD_REPS, CMD_REPS, ACK_REPS, TYPE_REPS)
     for version in versions:
